@@ -926,6 +926,25 @@ func MainHostile(args []string) int {
 		}
 		w.Write(meta, evs)
 	}
+	// streams without CRC that lack the last one or two bytes: bits of the final symbol are missing (or only padding is);
+	// many different texts, because what the missing bits decode to depends on the state of the adaptive code
+	for i := 0; i < 300; i++ {
+		var sb strings.Builder
+		fmt.Fprintf(&sb, "%d de LA1AAA: ", i*7919)
+		for sb.Len() < 30+i%90 {
+			sb.WriteString([]string{"wx ", "73 ", "QTH JP20 ", "msg ", "ok "}[rng.Intn(5)])
+			fmt.Fprintf(&sb, "%x", rng.Intn(4096))
+		}
+		valid, err := compressParts([]byte(sb.String()), []int{sb.Len()}, false)
+		if err != nil {
+			continue
+		}
+		for _, cut := range []int{1, 2} {
+			if len(valid) > 4+cut {
+				run(fmt.Sprintf("text-%d/tail-cut-%d", i, cut), valid[:len(valid)-cut], false)
+			}
+		}
+	}
 	// base streams
 	var bases []input
 	for _, in := range families(rng, false) {
